@@ -103,9 +103,9 @@ impl<'a> Name<'a> {
 """)
     c.contract(rel, NAME_WF, 'parse', """
         ensures
-            r is Ok ==> dec_labels(data@, *old(position) as int, 0) == Some(r.unwrap().lv()), // @C06:labels-per-rfc1035
-            r is Ok ==> *final(position) == *old(position) + inplace_len(data@, *old(position) as int), // @C06:resume-after-inplace-bytes
-            r is Err ==> dec_labels(data@, *old(position) as int, 0) is None, // @C06:accepts-everything-the-rfc-decoder-accepts
+            r is Ok ==> dec_labels(data@, *old(position) as int, 0) == Some(r.unwrap().lv()), // @C06:labels-per-rfc1035,C02:name-decoded,C05:owner-name
+            r is Ok ==> *final(position) == *old(position) + inplace_len(data@, *old(position) as int), // @C06:resume-after-inplace-bytes,C05:cursor-after-name
+            r is Err ==> dec_labels(data@, *old(position) as int, 0) is None, // @C06:accepts-everything-the-rfc-decoder-accepts,C02:valid-names-are-accepted,C11:valid-names-are-accepted
             r is Ok ==> r.unwrap().lv().len() <= 127, // @C01:output-bounded
 """, pre_body="\n        let ghost start = *position as int;\n")
     c.ghost(rel, NAME_WF, 'parse', "Ok(Self { labels })", "        proof { lemma_labels_view_len(labels@); }", where='before')
